@@ -296,4 +296,175 @@ theorem pass_activation_seq (ops : List (ActRange Int)) :
     rw [← this, ← hstep]
     simp [clampSeq, List.foldl]
 
+/-! ## Sums and counts over ranges (pooling) -/
+
+/-- number of indices below `n` satisfying `p` -/
+def countRange : Nat → (Nat → Bool) → Nat
+  | 0, _ => 0
+  | n + 1, p => countRange n p + (if p n then 1 else 0)
+
+theorem foldl_range_pair (n : Nat) (p : Nat → Prop) [inst : ∀ k, Decidable (p k)] (v : Nat → Int) (acc : Int × Nat) :
+    (List.range n).foldl (fun (acc : Int × Nat) k => if p k then (acc.1 + v k, acc.2 + 1) else acc) acc =
+      (acc.1 + sumRange n (fun k => if p k then v k else 0), acc.2 + countRange n (fun k => decide (p k))) := by
+  induction n with
+  | zero => simp [sumRange, countRange]
+  | succ k ih =>
+    rw [List.range_succ, List.foldl_append, ih]
+    simp only [List.foldl, sumRange, countRange]
+    by_cases h : p k
+    · simp only [h, if_true, decide_true]
+      ext <;> simp <;> omega
+    · simp only [h, if_false, decide_false]
+      ext <;> simp
+
+theorem foldl_range_acc (n : Nat) (f : Nat → Int) (g : Nat → Nat) (acc : Int × Nat) :
+    (List.range n).foldl (fun (acc : Int × Nat) k => (acc.1 + f k, acc.2 + g k)) acc =
+      (acc.1 + sumRange n f, acc.2 + (List.range n).foldl (fun a k => a + g k) 0) := by
+  induction n with
+  | zero => simp [sumRange]
+  | succ k ih =>
+    rw [List.range_succ, List.foldl_append, ih, List.foldl_append]
+    simp only [List.foldl, sumRange]
+    ext <;> simp <;> omega
+
+/-- closed form of the reference pooling sum and count -/
+theorem poolSumCount_eq (H W : Nat) (ifm : Nat → Nat → Int) (fh fw sh sw pt pl oy ox : Nat) :
+    poolSumCount H W ifm fh fw sh sw pt pl oy ox =
+      (sumRange fh fun ky => sumRange fw fun kx =>
+          if 0 ≤ ((oy * sh + ky : Nat) : Int) - (pt : Int) ∧ ((oy * sh + ky : Nat) : Int) - (pt : Int) < (H : Int) ∧
+             0 ≤ ((ox * sw + kx : Nat) : Int) - (pl : Int) ∧ ((ox * sw + kx : Nat) : Int) - (pl : Int) < (W : Int)
+          then ifm (((oy * sh + ky : Nat) : Int) - (pt : Int)).toNat (((ox * sw + kx : Nat) : Int) - (pl : Int)).toNat else 0,
+       (List.range fh).foldl (fun a ky => a + countRange fw fun kx =>
+          decide (0 ≤ ((oy * sh + ky : Nat) : Int) - (pt : Int) ∧ ((oy * sh + ky : Nat) : Int) - (pt : Int) < (H : Int) ∧
+             0 ≤ ((ox * sw + kx : Nat) : Int) - (pl : Int) ∧ ((ox * sw + kx : Nat) : Int) - (pl : Int) < (W : Int))) 0) := by
+  unfold poolSumCount
+  simp only []
+  have inner : ∀ ky (acc : Int × Nat), (List.range fw).foldl (fun (acc : Int × Nat) kx =>
+      if 0 ≤ ((oy * sh + ky : Nat) : Int) - (pt : Int) ∧ ((oy * sh + ky : Nat) : Int) - (pt : Int) < (H : Int) ∧
+             0 ≤ ((ox * sw + kx : Nat) : Int) - (pl : Int) ∧ ((ox * sw + kx : Nat) : Int) - (pl : Int) < (W : Int)
+      then (acc.1 + ifm (((oy * sh + ky : Nat) : Int) - (pt : Int)).toNat (((ox * sw + kx : Nat) : Int) - (pl : Int)).toNat, acc.2 + 1) else acc) acc = _ :=
+    fun ky acc => foldl_range_pair fw _ _ acc
+  simp only [inner]
+  rw [foldl_range_acc]
+  simp
+
+theorem sumRange_add (n : Nat) (f g : Nat → Int) : sumRange n (fun k => f k + g k) = sumRange n f + sumRange n g := by
+  induction n with
+  | zero => rfl
+  | succ k ih => simp only [sumRange, ih]; omega
+
+theorem sumRange_const (n : Nat) (c : Int) : sumRange n (fun _ => c) = c * n := by
+  induction n with
+  | zero => simp [sumRange]
+  | succ k ih =>
+    simp only [sumRange, ih]
+    rw [Int.natCast_succ, Int.mul_add, Int.mul_one]
+
+theorem countRange_true (n : Nat) (p : Nat → Bool) (h : ∀ k, k < n → p k = true) : countRange n p = n := by
+  induction n with
+  | zero => rfl
+  | succ k ih =>
+    simp only [countRange, h k (Nat.lt_succ_self k), if_true]
+    rw [ih (fun j hj => h j (Nat.lt_succ_of_lt hj))]
+
+theorem foldl_add_const (n c : Nat) (g : Nat → Nat) (h : ∀ k, k < n → g k = c) :
+    (List.range n).foldl (fun a k => a + g k) 0 = n * c := by
+  induction n with
+  | zero => simp
+  | succ k ih =>
+    rw [List.range_succ, List.foldl_append, ih (fun j hj => h j (Nat.lt_succ_of_lt hj))]
+    simp only [List.foldl, h k (Nat.lt_succ_self k)]
+    rw [Nat.succ_mul]
+
+
+/-! ## Concatenation offsets -/
+
+theorem concatOffsets_aux (sizes : List Nat) : ∀ (pre : List Nat) (base : Nat),
+    sizes.foldl (fun (acc : List Nat × Nat) d => (acc.1 ++ [acc.2], acc.2 + d)) (pre, base) =
+      (pre ++ offsFrom base sizes, base + sumL sizes) := by
+  induction sizes with
+  | nil => intro pre base; simp [offsFrom, sumL]
+  | cons d ds ih =>
+    intro pre base
+    simp only [List.foldl, ih, offsFrom, sumL]
+    have h : ∀ (l : List Nat) (a : Nat), l.foldl (· + ·) a = a + l.foldl (· + ·) 0 := by
+      intro l
+      induction l with
+      | nil => intro a; simp
+      | cons x xs ihx => intro a; simp only [List.foldl]; rw [ihx (a + x), ihx (0 + x)]; omega
+    rw [h ds (0 + d)]
+    simp only [List.append_assoc, List.singleton_append, Nat.zero_add]
+    congr 1
+    omega
+
+theorem concatOffsets_eq (sizes : List Nat) : concatOffsets sizes = (offsFrom 0 sizes, sumL sizes) := by
+  unfold concatOffsets
+  rw [concatOffsets_aux]
+  simp
+
+theorem sumL_cons (d : Nat) (ds : List Nat) : sumL (d :: ds) = d + sumL ds := by
+  unfold sumL
+  simp only [List.foldl]
+  have h : ∀ (l : List Nat) (a : Nat), l.foldl (· + ·) a = a + l.foldl (· + ·) 0 := by
+    intro l
+    induction l with
+    | nil => intro a; simp
+    | cons x xs ihx => intro a; simp only [List.foldl]; rw [ihx (a + x), ihx (0 + x)]; omega
+  rw [h ds (0 + d)]; omega
+
+/-- positions below `base` are untouched by the copies of `offsFrom base` -/
+theorem writtenFrom_below (ds : List Nat) : ∀ (k base a : Nat) (acc : Option (Nat × Nat)), a < base →
+    writtenFrom k (ds.zip (offsFrom base ds)) a acc = acc := by
+  induction ds with
+  | nil => intro k base a acc _; simp [offsFrom, writtenFrom]
+  | cons d ds ih =>
+    intro k base a acc h
+    simp only [offsFrom, List.zip_cons_cons, writtenFrom]
+    have : ¬ (base ≤ a ∧ a < base + d) := by omega
+    rw [if_neg this]
+    exact ih (k + 1) (base + d) a acc (by omega)
+
+theorem written_eq_locate (ds : List Nat) : ∀ (k base a : Nat) (acc : Option (Nat × Nat)), base ≤ a → a < base + sumL ds →
+    writtenFrom k (ds.zip (offsFrom base ds)) a acc = (locate ds (a - base)).map fun (i, j) => (i + k, j) := by
+  induction ds with
+  | nil => intro k base a acc h1 h2; simp [sumL] at h2; omega
+  | cons d ds ih =>
+    intro k base a acc h1 h2
+    rw [sumL_cons] at h2
+    simp only [offsFrom, List.zip_cons_cons, writtenFrom, locate]
+    by_cases hin : a < base + d
+    · have c : base ≤ a ∧ a < base + d := ⟨h1, hin⟩
+      have c2 : a - base < d := by omega
+      rw [if_pos c, if_pos c2, writtenFrom_below ds (k + 1) (base + d) a _ hin]
+      simp
+    · have c : ¬ (base ≤ a ∧ a < base + d) := by omega
+      have c2 : ¬ (a - base < d) := by omega
+      rw [if_neg c, if_neg c2, ih (k + 1) (base + d) a acc (by omega) (by omega)]
+      have e : a - (base + d) = a - base - d := by omega
+      rw [e]
+      cases locate ds (a - base - d) with
+      | none => rfl
+      | some p => simp [Nat.add_assoc, Nat.add_comm 1 k]
+
+theorem writers_below (ds : List Nat) : ∀ (base a : Nat), a < base → writers (ds.zip (offsFrom base ds)) a = 0 := by
+  induction ds with
+  | nil => intro base a _; simp [offsFrom, writers]
+  | cons d ds ih =>
+    intro base a h
+    simp only [offsFrom, List.zip_cons_cons, writers]
+    have : ¬ (base ≤ a ∧ a < base + d) := by omega
+    rw [if_neg this, ih (base + d) a (by omega)]
+
+theorem writers_once (ds : List Nat) : ∀ (base a : Nat), base ≤ a → a < base + sumL ds → writers (ds.zip (offsFrom base ds)) a = 1 := by
+  induction ds with
+  | nil => intro base a h1 h2; simp [sumL] at h2; omega
+  | cons d ds ih =>
+    intro base a h1 h2
+    rw [sumL_cons] at h2
+    simp only [offsFrom, List.zip_cons_cons, writers]
+    by_cases hin : a < base + d
+    · rw [if_pos ⟨h1, hin⟩, writers_below ds (base + d) a hin]
+    · have c : ¬ (base ≤ a ∧ a < base + d) := by omega
+      rw [if_neg c, ih (base + d) a (by omega) (by omega)]
+
 end VelaVerif.Lemmas.Rewrites
